@@ -122,7 +122,7 @@ BuilderCase(p) ==
 \* ---- HBuilder corpus ------------------------------------------------------------------------------------------------------
 HSlots == HeaderKindNames \ {"hend"}
 HSlotArgs(slot, seed) ==
-  IF slot = "info_req" THEN DstArgs("info_req", seed, seed + 1)
+  IF slot = "info_req" THEN DstArgs("info_req", seed, IF seed = 2 THEN 0 ELSE 3)
   ELSE SizedArgs(slot, seed) @@ HFlags(seed)
 HBSet(slot, seed) == [op |-> "hb_set", slot |-> slot] @@ HSlotArgs(slot, seed)
 HSlotSeq == <<"info_req", "address", "entry", "console", "hfb", "module_align", "hefi_bs", "entry_efi32", "entry_efi64", "relocatable">>
